@@ -236,14 +236,14 @@ def work(t):
   confirmed = None
   for rr in P.results:
     rr = dict(rr)
-    if rr['status'] == 'sat' and rr.get('kind', 'core') == 'core':
+    if rr['status'] in ('sat', 'unknown') and rr.get('kind', 'core') == 'core':
       if confirmed is None:
         confirmed = concrete(rp) or False
       if confirmed:
         rr['status'] = 'violation'
         path = write_replay(PID, dict(property=PID, replay=rp, observed=confirmed[0]))
         viol.append(dict(key=f'C09:{impl}:{confirmed[1]}', what=confirmed[0], replay=path))
-      else:
+      elif rr['status'] == 'sat':
         rr['status'] = 'spurious'
         rr['note'] = 'candidate counterexample did not reproduce on the real code'
     res.append(rr)
